@@ -212,10 +212,12 @@ def finish(pid, tier, seed, repo, results, bounded, lean, known, wall, meta):
         print(l)
     print("SUMMARY property=%s tier=%s obligations=%d discharged=%d contracts=%d out_of_reach=%d bounded=%s violations=%d undecided=%d broken=%d wall=%.1fs" % (
         pid, tier, n_obl, n_dis, len(results), len(out_of_reach), (bcov or {}).get("evaluations"), violations, undecided, broken, wall))
-    if broken:
-        return 3
+    # a violation found is reported as such even when another part of the run could not be carried out (both lines are printed);
+    # exit 3 is for runs that found nothing but are not to be trusted
     if violations:
         return 1
+    if broken:
+        return 3
     if undecided:
         return 2
     return 0
